@@ -9297,6 +9297,9 @@ def aten_squeeze(self: TTensor) -> TTensor:
 def aten_squeeze_dim(self: TTensor, dim: int) -> TTensor:
     if len(self.shape) == 0:
         return op.Identity(self)
+    if isinstance(self.shape[dim], int) and self.shape[dim] != 1:
+        # torch.squeeze(x, dim) is a no-op when the dimension is not 1; ONNX Squeeze rejects it
+        return op.Identity(self)
     return op.Squeeze(self, [dim])
 
 
